@@ -483,20 +483,166 @@ Qed.
 (* the family of trees in which every level lists the next level twice: d + 1 nodes *)
 Fixpoint c4_nn_dag (d : nat) (i : N) : list (N * c4_nnode) :=
   match d with
-  | O => [(i, mkC4nnode 2 true [] None)]
-  | S d' => (i, mkC4nnode 0 false [i + 1; i + 1] None) :: c4_nn_dag d' (i + 1)
+  | O => [(i, mkC4nnode 2 true [] None 7 7)]
+  | S d' => (i, mkC4nnode 0 false [i + 1; i + 1] None 0 0) :: c4_nn_dag d' (i + 1)
   end.
 
-(* REFUTED: "the number of leaf visits of a whole-tree iteration is linear in the number of nodes".
-   NNTreeIterator::deepen remembers only the nodes of the current path, so shared nodes are expanded again and again:
-   11 nodes, 1024 leaf visits (2^d in general; observed on the real binary, finding D-C04-nntree-dag). *)
-Lemma nntree_iter_linear_refuted_lemma : exists g root,
+(* REFUTED for the plain iteration of the public tree helpers (begin()/++, for (auto i: tree), getAsMap - the part that
+   the repair of D-C04-nntree-dag does not touch): "the number of leaf visits of a whole-tree iteration is linear in the
+   number of nodes".  NNTreeIterator::deepen remembers only the nodes of the current path, so shared nodes are expanded
+   again and again: 11 nodes, 1024 leaf visits (2^d in general; observed through the driver, D-C04-nntree-dag-api).
+   Before the repair this was also the loop of NNTreeImpl::repair(). *)
+Lemma nntree_raw_iteration_linear_refuted_lemma : exists g root,
   length g = 11%nat /\ c4_wf g /\
   c4_nn_iter (20 * 400) g root = (mkC4ist 1024 1024 0, true).
 Proof.
   exists (c4_nn_dag 10 1), 1. split; [reflexivity|]. split.
   - unfold c4_wf. cbn. intuition discriminate.
   - vm_compute. reflexivity.
+Qed.
+
+Lemma c4_deepen_leaf_found : forall fuel g a first ae path seen p' leaf,
+  c4_deepen fuel g a first ae path seen = C4dLeaf p' leaf -> exists nd, c4_find g leaf = Some nd.
+Proof.
+  induction fuel as [|f IH]; intros g a first ae path seen p' leaf H; [discriminate|].
+  cbn [c4_deepen] in H. destruct (c4_add a seen) as [ok seen']. destruct ok; cbn [negb] in H; [|discriminate].
+  destruct (c4_find g a) as [nd|] eqn:Ef; [|discriminate].
+  destruct (1 <? c4n_items nd); [inversion H; subst; eauto|].
+  destruct (c4n_kids nd) as [|k0 kl]; [destruct (ae && c4n_hasitems nd); discriminate|].
+  destruct (nth_error (k0 :: kl) (if first then 0%nat else Nat.pred (length (k0 :: kl)))) as [next|]; [|discriminate].
+  destruct (c4_find g next); [|discriminate]. eapply IH; eauto.
+Qed.
+
+(* an invariant of the caller's state that every leaf visit and every warning preserves holds after the whole loop,
+   whatever the cap *)
+Lemma c4_nn_walk_inv : forall (T : Type) (I : T -> Prop) (visit : N -> c4_nnode -> T -> T * bool) (warn : T -> T) g,
+  (forall leaf ld st, c4_find g leaf = Some ld -> I st -> I (fst (visit leaf ld st))) ->
+  (forall st, I st -> I (warn st)) ->
+  forall fuel path st, I st -> I (fst (c4_nn_walk visit warn fuel g path st)).
+Proof.
+  intros T I visit warn g Hv Hw. induction fuel as [|f IH]; intros path st Hi; [exact Hi|].
+  cbn [c4_nn_walk]. destruct path as [|[n k] rest]; [exact Hi|].
+  destruct (c4_find g n) as [nd|]; [|exact Hi].
+  destruct (nth_error (c4n_kids nd) (S k)) as [kid|]; [|apply IH; exact Hi].
+  match goal with |- context [if negb ?u then _ else _] => destruct (negb u) end; [apply IH, Hw, Hi|].
+  destruct (c4_deepen (S (length g)) g kid true false ((n, S k) :: rest) (map fst ((n, S k) :: rest))) as [p' leaf|p' leaf|w|];
+    try (apply IH; first [exact Hi | apply Hw; exact Hi]); [|exact Hi].
+  destruct (c4_find g leaf) as [ld|] eqn:El; [|apply IH; exact Hi].
+  pose proof (Hv leaf ld st El Hi) as Hv'. destruct (visit leaf ld st) as [st' go]. cbn [fst] in Hv'.
+  destruct go; [apply IH; exact Hv' | exact Hv'].
+Qed.
+
+Lemma c4_nn_foreach_inv : forall (T : Type) (I : T -> Prop) (visit : N -> c4_nnode -> T -> T * bool) (warn : T -> T) g,
+  (forall leaf ld st, c4_find g leaf = Some ld -> I st -> I (fst (visit leaf ld st))) ->
+  (forall st, I st -> I (warn st)) ->
+  forall cap root st, I st -> I (fst (c4_nn_foreach visit warn cap g root st)).
+Proof.
+  intros T I visit warn g Hv Hw cap root st Hi. unfold c4_nn_foreach.
+  destruct (c4_deepen (S (length g)) g root true true [] []) as [p' leaf|p' leaf|w|]; try exact Hi; [|apply Hw; exact Hi].
+  destruct (c4_find g leaf) as [ld|] eqn:El; [|exact Hi].
+  pose proof (Hv leaf ld st El Hi) as Hv'. destruct (visit leaf ld st) as [st' go]. cbn [fst] in Hv'.
+  destruct go; [apply c4_nn_walk_inv; assumption | exact Hv'].
+Qed.
+
+(* validate(): all leaves accepted so far are distinct nodes whose keys are not above the last key; a leaf that is entered
+   again therefore ends the loop *)
+Definition c4_vinv (g : list (N * c4_nnode)) (st : c4_vst) : Prop :=
+  NoDup (c4v_seen st) /\ incl (c4v_seen st) (c4_keys g) /\
+  (c4v_first st = true -> c4v_seen st = []) /\
+  (forall l, In l (c4v_seen st) -> exists ld, c4_find g l = Some ld /\ c4n_klo ld <= c4n_khi ld /\ c4n_khi ld <= c4v_last st) /\
+  c4v_leaves st <= N.of_nat (length (c4v_seen st)) + (if c4v_err st then 1 else 0).
+
+Lemma c4_vvisit_inv : forall g leaf ld st, c4_find g leaf = Some ld -> c4_vinv g st -> c4_vinv g (fst (c4_nn_vvisit leaf ld st)).
+Proof.
+  intros g leaf ld st Hf (H1 & H2 & H3 & H4 & H5). unfold c4_nn_vvisit.
+  destruct (c4v_err st) eqn:Ee; [cbn [fst]; unfold c4_vinv; rewrite Ee; auto|].
+  destruct ((negb (c4v_first st) && (c4n_klo ld <=? c4v_last st)) || (c4n_khi ld <? c4n_klo ld)) eqn:Ec; cbn [fst].
+  - unfold c4_vinv; cbn [c4v_first c4v_last c4v_seen c4v_leaves c4v_warns c4v_err]. repeat split; try assumption. lia.
+  - apply orb_false_elim in Ec as [Ec1 Ec2]. apply N.ltb_ge in Ec2.
+    assert (Hnew : ~ In leaf (c4v_seen st)).
+    { intro Hin. destruct (H4 leaf Hin) as (ld' & Hf' & Hlo & Hhi). rewrite Hf in Hf'. inversion Hf'; subst ld'.
+      destruct (c4v_first st) eqn:Ef; [rewrite (H3 eq_refl) in Hin; destruct Hin|].
+      cbn [negb andb] in Ec1. apply N.leb_gt in Ec1. lia. }
+    unfold c4_vinv; cbn [c4v_first c4v_last c4v_seen c4v_leaves c4v_warns c4v_err length]. repeat split.
+    + constructor; assumption.
+    + intros x [Hx|Hx]; [subst; eapply c4_find_some_key; eauto | auto].
+    + discriminate.
+    + intros l [Hl|Hl].
+      * subst l. exists ld. repeat split; [assumption | assumption | lia].
+      * destruct (H4 l Hl) as (ld' & Hf' & Hlo & Hhi). exists ld'. repeat split; try assumption.
+        destruct (c4v_first st) eqn:Ef; [rewrite (H3 eq_refl) in Hl; destruct Hl|].
+        cbn [negb andb] in Ec1. apply N.leb_gt in Ec1. lia.
+    + lia.
+Qed.
+
+(* NNTreeImpl::validate() enters at most (number of nodes) + 1 leaves, whatever the shape of the graph and whatever the
+   cap: the first leaf that is entered a second time ends it with "keys are not sorted" *)
+Lemma nntree_validate_visits_lemma : forall cap g root,
+  c4v_leaves (fst (c4_nn_validate cap g root)) <= N.of_nat (length g) + 1.
+Proof.
+  intros cap g root. unfold c4_nn_validate.
+  pose proof (c4_nn_foreach_inv c4_vst (c4_vinv g) c4_nn_vvisit c4_nn_vwarn g (c4_vvisit_inv g)) as H.
+  destruct (H (fun st Hi => Hi) cap root (mkC4vst true 0 [] 0 0 false)) as (H1 & H2 & _ & _ & H5).
+  - unfold c4_vinv; cbn [c4v_first c4v_last c4v_seen c4v_leaves c4v_warns c4v_err length].
+    repeat split; try apply NoDup_nil; try (intros x []); try reflexivity; lia.
+  - pose proof (c4_nodup_keys_le _ g _ H1 H2).
+    destruct (c4v_err (fst (c4_nn_foreach c4_nn_vvisit c4_nn_vwarn cap g root (mkC4vst true 0 [] 0 0 false)))); lia.
+Qed.
+
+(* the repaired repair(): leaves entered = distinct leaves + re-entries, and never more than 1001 re-entries *)
+Definition c4_rpinv (g : list (N * c4_nnode)) (st : c4_rpst) : Prop :=
+  NoDup (c4rp_seen st) /\ incl (c4rp_seen st) (c4_keys g) /\
+  c4rp_leaves st = N.of_nat (length (c4rp_seen st)) + c4rp_reent st /\
+  c4rp_reent st <= 1001 /\ (c4rp_gaveup st = false -> c4rp_reent st <= 1000) /\
+  (c4rp_gaveup st = true -> 1 <= c4rp_warns st).
+
+Lemma c4_rvisit_inv : forall g leaf ld st, c4_wf g -> c4_find g leaf = Some ld -> c4_rpinv g st -> c4_rpinv g (fst (c4_nn_rvisit leaf ld st)).
+Proof.
+  intros g leaf ld st Hwf Hf Hall. pose proof Hall as (H1 & H2 & H3 & H4 & H5 & H6). unfold c4_nn_rvisit.
+  destruct (c4rp_gaveup st) eqn:Eg; [exact Hall|].
+  specialize (H5 eq_refl).
+  destruct (c4_add leaf (c4rp_seen st)) as [ok seen'] eqn:Ea.
+  destruct (c4_add_spec _ _ _ _ Ea (c4_wf_find_nonzero _ g leaf ld Hwf Hf)) as [(-> & Hni & ->)|(-> & _ & ->)].
+  - cbn [fst]. unfold c4_rpinv; cbn [c4rp_seen c4rp_reent c4rp_leaves c4rp_distinct c4rp_warns c4rp_gaveup length].
+    repeat split; try assumption; try (intros; assumption); try (intro; discriminate); try lia.
+    + constructor; assumption.
+    + intros x [Hx|Hx]; [subst; eapply c4_find_some_key; eauto | auto].
+  - destruct (1000 <? c4rp_reent st + 1) eqn:El; cbn [fst]; unfold c4_rpinv;
+      cbn [c4rp_seen c4rp_reent c4rp_leaves c4rp_distinct c4rp_warns c4rp_gaveup length];
+      repeat split; try assumption; try (intro; discriminate); try lia.
+    apply N.ltb_ge in El. intros _. lia.
+Qed.
+
+(* NNTreeImpl::repair() after the fix enters at most (number of nodes) + 1001 leaves - linear in the input instead of
+   2^depth - whatever the shape of the graph and whatever the cap, and when it gives up it says so (warning) *)
+Lemma nntree_repair_visits_lemma : forall cap g root, c4_wf g ->
+  c4rp_leaves (fst (c4_nn_repair cap g root)) <= N.of_nat (length g) + 1001 /\
+  c4rp_reent (fst (c4_nn_repair cap g root)) <= 1001 /\
+  (c4rp_gaveup (fst (c4_nn_repair cap g root)) = true -> 1 <= c4rp_warns (fst (c4_nn_repair cap g root))).
+Proof.
+  intros cap g root Hwf. unfold c4_nn_repair.
+  pose proof (c4_nn_foreach_inv c4_rpst (c4_rpinv g) c4_nn_rvisit c4_nn_rwarn g (fun leaf ld st => c4_rvisit_inv g leaf ld st Hwf)) as H.
+  assert (Hw : forall st, c4_rpinv g st -> c4_rpinv g (c4_nn_rwarn st)).
+  { intros st (A & B & C & D & E & F). unfold c4_rpinv, c4_nn_rwarn.
+    cbn [c4rp_seen c4rp_reent c4rp_leaves c4rp_distinct c4rp_warns c4rp_gaveup]. repeat split; try assumption.
+    intros G. specialize (F G). lia. }
+  destruct (H Hw cap root (mkC4rpst [] 0 0 0 0 false)) as (H1 & H2 & H3 & H4 & _ & H6).
+  - unfold c4_rpinv; cbn [c4rp_seen c4rp_reent c4rp_leaves c4rp_distinct c4rp_warns c4rp_gaveup length].
+    split; [apply NoDup_nil|]. split; [intros x []|]. split; [reflexivity|]. split; [lia|]. split; [intros _; lia | intro; discriminate].
+  - pose proof (c4_nodup_keys_le _ g _ H1 H2). repeat split; try assumption. lia.
+Qed.
+
+(* opening a tree the way every user inside the library does (validate(true): validate, repair on failure) enters at
+   most 2 * (number of nodes) + 1002 leaves in total *)
+Lemma nntree_open_visits_lemma : forall cap g root, c4_wf g ->
+  c4v_leaves (fst (fst (c4_nn_open cap g root))) +
+  match snd (c4_nn_open cap g root) with Some r => c4rp_leaves (fst r) | None => 0 end
+  <= 2 * N.of_nat (length g) + 1002.
+Proof.
+  intros cap g root Hwf. unfold c4_nn_open. cbn [fst snd].
+  pose proof (nntree_validate_visits_lemma cap g root) as Hv.
+  destruct (nntree_repair_visits_lemma cap g root Hwf) as (Hr & _).
+  destruct (c4v_err (fst (c4_nn_validate cap g root))); lia.
 Qed.
 
 (* ------------------------------------------------------------------ (d) outlines *)
